@@ -140,6 +140,9 @@ def r173(ctx, api):
     r175(ctx)
     r176(ctx)
     r177(ctx)
+    r179(ctx)
+    from . import simple_append as _sa
+    _sa.commit_after_loop_rule(ctx, 'R17.10')
     from . import c01 as _c01d
     _c01d.r125(ctx, 'R17.8')
     from . import c20 as _c20
@@ -254,3 +257,21 @@ def r177(ctx, rule='R17.7'):
            'INT96 data come back zone-aware when the pandas metadata records a zone', api.loc(s12[0]) if s12 else api.loc(f))
     ctx.ob(rule, 'api._dtypes:chunk-statistics-found-by-column-path', not pos and "c[3][3] == [col]" in norm(ast.Module(body=f.body, type_ignores=[])),
            'positional look-ups: %s' % [norm(x) for x in pos], api.loc(f))
+
+
+def r179(ctx, rule='R17.9'):
+    """_pre_allocate hands dataframe.empty the zone map and the partition categories it was given: the maps describe
+    every column that may be allocated - data columns, partition columns *and index columns* - so they are passed
+    through unchanged (a map narrowed to the data columns strips the zone of an index column)"""
+    api = ctx.repo['api']
+    f = api.func('_pre_allocate')
+    rebound = []
+    for st in walk_no_nested(f):
+        tg = st.targets if isinstance(st, ast.Assign) else ([st.target] if isinstance(st, (ast.AugAssign, ast.AnnAssign)) else [])
+        for t in tg:
+            if isinstance(t, ast.Name) and t.id in ('tz', 'columns_dtype', 'size'):
+                rebound.append(norm(st)[:70])
+    ctx.ob(rule, 'api._pre_allocate:zone-map-passed-through-unchanged', not rebound, str(rebound), api.loc(f))
+    calls = [c for c in walk_no_nested(f) if isinstance(c, ast.Call) and callee(c) == 'dataframe.empty']
+    ok = len(calls) == 1 and norm(kwarg(calls[0], 'timezones', 99)) == 'tz'
+    ctx.ob(rule, 'api._pre_allocate:allocator-gets-the-zone-map', ok, '', api.loc(f))
